@@ -162,7 +162,17 @@ def handle (l : String) : String :=
       | .ok f => "ok " ++ renderFile f
       | .err e => "err " ++ errName e
       | .panic => "panic"
-    verdict m go false "EncryptKey-output-differs-from-model"
+    -- Spec judgement of a differing EncryptKey output: the file the real code wrote must open (in the model, under the same
+    -- passphrase) to the key that was stored.
+    let specOk := match fields go with
+      | "ok" :: rest =>
+        (match parseFile (rest.take 11) with
+         | some f => (match decryptKey P f (hexB pw) with
+                      | .ok k => k.d == beNat (hexB d)
+                      | _ => false)
+         | none => false)
+      | _ => false
+    verdict m go specOk "EncryptKey-output-does-not-decrypt-to-the-stored-key"
   | _ => "bad-op\tspec-ok"
 
 def main : IO Unit := runLines handle
